@@ -179,4 +179,28 @@ _EXTRA2 = {
 for _k, _v in _EXTRA2.items():
     CHECKS[_k]["text"] = CHECKS[_k]["text"].rstrip() + " " + _v
 
+# families added in round 4
+_EXTRA3 = {
+    "C01": "Also: Colang 1.0 conversations continued through `state` with eight per-turn option forms (none, {}, default object, log only, input true/false, lists), message lists in which the user message is followed by an `event` message.",
+    "C02": "Also: an event-level part - core.co + guardrails.co + three small bots explored by the E1 explorer over all orders of user utterances and action results (barge-in while the bot talks or while the rail action is in flight, stopped answers); every emitted StartUtteranceBotAction with a non-refusal text needs an approving output-rails run of its own.",
+    "C03": "Also: a Colang 2.x world on the shipped `self check input` / `self check output` rails, a class-based rail action whose constructor fails at the first attempt only, followed by a healthy turn.",
+    "C04": "Also: parameters written in statements on flow events (return_value, StartFlow / FlowStarted parameters), values built by another flow from a variable and fed back as input events, one `match $ref.<Event>()` statement reached again with another action type / instance.",
+    "C05": "Also: the same action name with identical / sub- / superset / reordered argument sets, instance events with Started confirmed for both / none / one action, cascade programs with a third interaction loop and an only child in the second.",
+    "C06": "Also: T8 (action names containing Start / Stop / Finished as substrings), T9 (a child or an activated flow reacts to the same event as its parent / activator, more specifically; the parent may end through a sibling), activations of one flow that differ in their arguments; the feed-back emulation is bound to the real process_events by running every history to depth 3/4 both ways.",
+    "C07": "Also: member flows without a waiting statement at every position of await / when groups.",
+    "C08": "Also: scenarios with explicit expectations - restarted instances of an activated callee are bound from the activator's arguments again, a callee that changes the global it was called with, return members named like a parameter, activations differing only in the type of an argument.",
+    "C09": "Hosts also: three-loop cascade programs, a program that uses one instance uid twice, C04's reused-statement programs; C11's cut states include two activators that deactivate.",
+    "C10": "Also: part P - flows that react to each other's outgoing events through process_events (event cap, witness afterwards), fault kinds in another flow's header (parameter default, intent tag of the parent of an action flow).",
+    "C11": "Also: re-activation of an activated flow that failed while matching / finished, two activators that deactivate.",
+    "C12": "Also: the edge of the accepted 2.x language (operator x operand kind x group shape x nesting context; oracle: rejected by the loader or compiled into a closed flow).",
+    "C13": "Also: blank lines after a Colang 1.0 ` or` continuation.",
+    "C14": "Also: action results (None, falsy, containers) assigned over earlier values, flows defined by `start_flow` events of the history.",
+    "C15": "Also: a predefined bot message that uses a context variable only some conversations supply, conversations with identical texts and different per-request options / rail verdicts.",
+    "C16": "Also: one rail flow running twice within one call (listed as input and output rail; refusal taken from a variable and re-checked): `stop` belongs to the occurrence that blocked.",
+    "C17": "Also: outputs longer than the prompt budget of the following call (20 000 characters).",
+    "C20": "Also: percent-encoded traversal tokens, a datastore with write latency.",
+}
+for _k, _v in _EXTRA3.items():
+    CHECKS[_k]["text"] = CHECKS[_k]["text"].rstrip() + " " + _v
+
 NOT_APPLICABLE = {}
